@@ -186,6 +186,9 @@ structure MatchT where
   body : List TEv
   once : Bool
   rest : List Dir
+  /-- a `once` template that has fired: its test was replaced by one that never matches, the slot stays
+      (genshi fix "py:match once retires the template without shifting the others") -/
+  retired : Bool := false
   deriving DecidableEq, Repr, Inhabited
 
 /-! ## run-time values -/
